@@ -4,6 +4,10 @@ From GV Require Import Compiler.Compile Proofs.LexProofs.
 From Coq Require Import Lia.
 Open Scope N_scope.
 
+(** the channel holds more than one state call sends (checked against the constant regenerated from lexer.go) *)
+Lemma cap_ok : (4 < c_token_queue_cap)%nat.
+Proof. apply Nat.ltb_lt. vm_compute. reflexivity. Qed.
+
 Definition lok (lx : lexer) : Prop := ol (lx_st lx) = 0%nat.
 
 Lemma next_token_ok fuel : forall lx, lok lx ->
@@ -21,7 +25,7 @@ Proof.
       destruct (l_panic l'); [exact I|].
       rewrite rev_length. unfold ol in Hb, H. rewrite H in Hb.
       destruct (Nat.ltb_spec c_token_queue_cap (List.length (l_out l'))) as [Hlt|_].
-      - change c_token_queue_cap with 64%nat in Hlt. lia.
+      - pose proof cap_ok. lia.
       - apply (IH (mkLexer st' (with_out l' []) (rev (l_out l')) false)). reflexivity. }
     destruct st; try apply Hs. exact H.
 Qed.
